@@ -92,6 +92,10 @@ type envStep struct {
 	Ready string `json:"ready,omitempty"` // provider marks the composed resource for this name ready
 	Param string `json:"param,omitempty"` // user sets spec.params.<Param>
 	Rev2  bool   `json:"rev2,omitempty"`  // the Composition is edited: revision 2 drops the DropRev2 templates
+	// Unparam: the user removes spec.params.<Unparam> again (only offered for patch sources of P&T templates,
+	// never for the pipeline's drop switches): a Required patch then fails to render for a resource that
+	// already exists, which must stay referenced and untouched.
+	Unparam string `json:"unparam,omitempty"`
 }
 
 func genScenario() *rapid.Generator[scenario] {
@@ -160,6 +164,9 @@ func genEnvSteps(sc scenario) *rapid.Generator[[]envStep] {
 			if p != "" && !seen[p] {
 				seen[p] = true
 				menu = append(menu, envStep{Param: p}, envStep{Param: p})
+				if p == r.Param && !sc.Pipeline {
+					menu = append(menu, envStep{Unparam: p})
+				}
 			}
 		}
 		if r.DropRev2 && !seen["rev2"] {
@@ -436,6 +443,16 @@ func (w *world) apply(st envStep) {
 		if !w.sc.Pipeline && !w.rev2 && differs {
 			w.rev2 = true
 			w.env.InstallComposition(w.sc.compositionRev(2), 2)
+		}
+	case st.Unparam != "":
+		xr := verifenv.NewUnstructuredXR(w.env.XRGVK, xrName)
+		if err := c.Get(ctx, types.NamespacedName{Name: xrName}, xr); err != nil {
+			return
+		}
+		unstructured.RemoveNestedField(xr.Object, "spec", "params", st.Unparam)
+		_ = c.Update(ctx, xr)
+		if w.rec != nil {
+			w.rec.Label("env:patch-source-removed-again")
 		}
 	case st.Param != "":
 		xr := verifenv.NewUnstructuredXR(w.env.XRGVK, xrName)
